@@ -35,7 +35,8 @@ PROBES = ['forged-sender', 'unicast-to-well-known-name', 'unicast-to-unique-name
           'broadcast-to-two-holders', 'broadcast-no-holder', 'destination-also-holds-rule',
           'bus-call-while-rule-holder-matches', 'no-reply-flag-forwarded', 'big-endian-forwarded',
           'variant-in-forwarded-body', 'real-client-sender', 'new-peer-mid-run',
-          'name-owner-changed-mid-run', 'sender-holds-matching-rule', 'bus-drained-then-reconnect', 'name-taken-over', 'traffic-before-hello']
+          'name-owner-changed-mid-run', 'sender-holds-matching-rule', 'bus-drained-then-reconnect', 'name-taken-over', 'traffic-before-hello', 'call-before-hello-gets-the-connection-dropped',
+          'reply-without-destination']
 COMPONENTS = {
     'real': ['txdbus.bus.Bus (messageReceived, sendMessage, dbus_AddMatch, clientConnected/'
              'Disconnected)', 'txdbus.bus.BusProtocol (tracing subclass on rawDBusMessageReceived / '
@@ -158,6 +159,17 @@ def scenario(ctx):
         _, m = cands.pop(0)
         true_sender = uniques[name]
         dest = m.fields.get(rc.F_DESTINATION)
+        # whatever this message makes the bus write to OTHER connections is a copy of it or a
+        # signal of the bus itself - never a reply or error of the bus's own making
+        for who, msgs in seg.items():
+            if who == name:
+                continue
+            for x in msgs:
+                if is_copy(m, x) or (x.mtype == rc.SIGNAL and x.fields.get(rc.F_INTERFACE) == BUS):
+                    continue
+                raise Violation('C14/spurious', 'bus-made %s at a bystander' % ('error' if x.mtype == rc.ERROR else 'message'),
+                                'while the bus processed %s of %s, connection %s received %s'
+                                % (m.describe(), name, who, x.describe()))
         skind = ('absent' if rc.F_SENDER not in m.fields else
                  'true' if m.fields[rc.F_SENDER] == true_sender else 'forged')
         if skind == 'forged':
@@ -345,11 +357,20 @@ def scenario(ctx):
         if k == 0:           # unicast
             mt = ds.pick([1, 4, 2, 3])
             if mt == 1 and rec.get('nohello') and not rec.get('said_hello'):
-                # a call to a peer before Hello would get the connection dropped: Hello first
-                rec['said_hello'] = True
-                p.bus_call('Hello')
-                sim.log('op', rec['name'], 'late-hello')
+                if ds.flag(0.5):
+                    # a call to a peer before Hello gets the connection dropped: Hello first
+                    rec['said_hello'] = True
+                    p.bus_call('Hello')
+                    sim.log('op', rec['name'], 'late-hello')
+                else:
+                    # ... or not: the bus drops this connection; nobody else is to hear of it
+                    # beyond the call itself
+                    rec['alive'] = False
+                    sim.probe('call-before-hello-gets-the-connection-dropped')
             f = {rc.F_DESTINATION: some_dest()}
+            if mt in (2, 3) and ds.flag(0.15):
+                del f[rc.F_DESTINATION]        # a reply addressed to nobody
+                sim.probe('reply-without-destination')
             if mt in (1, 4):
                 f[rc.F_PATH] = ds.pick(PATHS)
                 f[rc.F_MEMBER] = ds.pick(MEMBERS)
@@ -368,7 +389,7 @@ def scenario(ctx):
                        little=not ds.flag(0.25),
                        order=ds.shuffle([1, 2, 3, 4, 5, 6, 7, 8]) if ds.flag(0.3) else None)
             p.send(m)
-            sim.log('op', rec['name'], 'unicast', mt, f[rc.F_DESTINATION], s)
+            sim.log('op', rec['name'], 'unicast', mt, f.get(rc.F_DESTINATION), s)
         elif k == 1:         # broadcast signal
             nargs = ds.choose(3)
             body = [ds.pick(ARGVALS[:4]) for _ in range(nargs)]
